@@ -12,7 +12,7 @@ import itertools
 
 ID = 'C11'
 PROFILES = ['debug', 'release']
-THEOREMS = ['C11_terminates', 'C11_once', 'C11_inherit', 'C11_inherit_tree', 'C11_contents_order']
+THEOREMS = ['C11_terminates', 'C11_enough_fuel', 'C11_fuel_mono', 'C11_once', 'C11_inherit', 'C11_inherit_tree', 'C11_contents_order']
 ALLOWED_AXIOMS = []
 CASE_TIMEOUT = 600
 RULE = ('page trees over <= 10 objects: every ordered tree shape with <= 5 tree objects x every placement of '
@@ -20,7 +20,7 @@ RULE = ('page trees over <= 10 objects: every ordered tree shape with <= 5 tree 
         'through 0..3 references; kids shared between parents or listed twice; kids pointing back to an ancestor or '
         'the root; self-referential and longer looping reference chains in every reference-following position '
         '(/Kids, /Contents, a /Contents array element, /Resources, /Font, a font entry, /Encoding, /FontDescriptor); '
-        '/Encoding names over the UTF-8 boundary cases; a malformed stream (deleted keys, wrong types, undefined ids, retargeted references). '
+        '/Encoding names over the UTF-8 boundary cases; fonts x descriptors for is_embedded (standard-14 names, /FontDescriptor absent / direct / behind 1-2 references / undefined, /FontFile* reference or not); a malformed stream (deleted keys, wrong types, undefined ids, retargeted references). '
         'non-trivial = distinct case whose DOM has at least one page with a font, or that is rejected with an error')
 TRUSTED = ['model of pdf_page_dom.rs / get_resolved_dict in coq/Model/Dom.v (hand transcription, validated by this '
            'correspondence run in debug and release builds)',
@@ -215,8 +215,14 @@ def utf8_ok(b):
         return False
 
 
+STANDARD_FONTS = [b'Times-Roman', b'Times-Bold', b'Times-Italic', b'Times-BoldItalic', b'Helvetica', b'Helvetica-Bold',
+                  b'Helvetica-Oblique', b'Helvetica-BoldOblique', b'Courier', b'Courier-Bold', b'Courier-Oblique',
+                  b'Courier-BoldOblique', b'Symbol', b'ZapfDingbats']
+
+
 def spec_font(ctx, d):
-    """(basefont) of a font dictionary, or Bad."""
+    """(basefont, embedded) of a font dictionary, or Bad.  embedded: 't' for one of the 14 standard Type1 fonts or a
+    descriptor with a /FontFile, /FontFile2 or /FontFile3 reference; 'f' for a descriptor without; 'u' without a descriptor."""
     bf = d.get(b'BaseFont')
     if not bf or bf[0] != 'name':
         raise Bad('font without /BaseFont')
@@ -224,6 +230,7 @@ def spec_font(ctx, d):
     if not st or st[0] != 'name':
         raise Bad('font without /Subtype')
     fd = d.get(b'FontDescriptor')
+    emb = 'u'
     if fd is not None:
         if fd[0] == 'ref':
             fd = ctx.get((fd[1], fd[2]))     # one reference, as the library documents for descriptors
@@ -232,12 +239,15 @@ def spec_font(ctx, d):
         nm, fl = fd[1].get(b'FontName'), fd[1].get(b'Flags')
         if not nm or nm[0] != 'name' or not fl or fl[0] != 'int' or not (0 <= fl[1] < 2 ** 63):
             raise Bad('bad font descriptor')
+        emb = 't' if any(fd[1].get(k, ('x',))[0] == 'ref' for k in (b'FontFile', b'FontFile2', b'FontFile3')) else 'f'
+    if st[1] == b'Type1' and bf[1] in STANDARD_FONTS:
+        emb = 't'
     enc = d.get(b'Encoding')
     if enc is not None:
         e = resolve(ctx, enc)
         if e is None or e[0] not in ('name', 'dict') or (e[0] == 'name' and not utf8_ok(e[1])):
             raise Bad('bad /Encoding')
-    return bf[1]
+    return (bf[1], emb)
 
 
 def spec_fonts(ctx, rd):
@@ -381,7 +391,7 @@ def parse_obs(obs):
             fonts = {}
             for e in res.split(','):
                 q = e.split(':')
-                fonts[bytes.fromhex(q[0])] = bytes.fromhex(q[1])
+                fonts[bytes.fromhex(q[0])] = (bytes.fromhex(q[1]), q[4][2:] if len(q) > 4 else '?')
         key = (int(n), int(g))
         order.append(key)
         out.setdefault(key, []).append((kind, fonts, tail))
@@ -453,7 +463,7 @@ def oracle(case, obs, prof):
                         fs[bytes.fromhex(a)] = bytes.fromhex(b)
                 cs = [] if q[3] == '-' else [b'' if c == '-' else bytes.fromhex(c) for c in q[3].split(',')]
                 gen[(int(n), int(g))] = (q[1], fs if q[1] == 'L' else {}, cs if q[1] == 'L' else [])
-        obsd = {i: (got[i][0][0], (got[i][0][1] or {}) if got[i][0][0] == 'L' else {},
+        obsd = {i: (got[i][0][0], {k: v[0] for k, v in (got[i][0][1] or {}).items()} if got[i][0][0] == 'L' else {},
                     ([] if got[i][0][2] == '-' else [b'' if c == '-' else bytes.fromhex(c) for c in got[i][0][2].split(',')])
                     if got[i][0][0] == 'L' else []) for i in got}
         if obsd != gen:
@@ -626,7 +636,9 @@ def std_opts(rng):
                                             doc.via(('dict', {b'Type': N_('Encoding')}), r.choice([0, 1, 2]))]),
             'descr': lambda doc, r: r.choice([None, None, None,
                                               ('dict', {b'FontName': N_('X'), b'Flags': I_(32)}),
-                                              R_(doc.put(('dict', {b'FontName': N_('X'), b'Flags': I_(4)})))])}
+                                              ('dict', {b'FontName': N_('X'), b'Flags': I_(32), b'FontFile2': R_(1)}),
+                                              R_(doc.put(('dict', {b'FontName': N_('X'), b'Flags': I_(4)}))),
+                                              R_(doc.put(('dict', {b'FontName': N_('X'), b'Flags': I_(4), b'FontFile3': R_(1)})))])}
 
 
 def random_shape(n, rng):
@@ -975,9 +987,53 @@ def encoding_cases(tier, rng):
     return out
 
 
+def embed_cases(tier, rng):
+    """what FontDictionary::is_embedded() depends on: /Subtype and /BaseFont (the 14 standard Type1 fonts), the
+    /FontDescriptor (absent, direct, behind one reference, behind two = error, undefined) and its /FontFile,
+    /FontFile2, /FontFile3 entries (a reference counts, defined or not; anything else does not)"""
+    out = []
+    fonts = [(b'Type1', b'Helvetica'), (b'Type1', b'Courier-BoldOblique'), (b'Type1', b'ZapfDingbats'), (b'Type1', b'Arial'),
+             (b'Type1', b'Helvetica-'), (b'Type1', b'helvetica'), (b'TrueType', b'Helvetica'), (b'Type0', b'Symbol'),
+             (b'MMType1', b'Times-Roman'), (b'Type1 ', b'Symbol'), (b'Type1', b'')]
+    ok = {b'FontName': N_('X'), b'Flags': I_(4)}
+    descrs = [None,
+              dict(ok),
+              dict(ok, FontFile=R_(70)), dict(ok, FontFile2=R_(70)), dict(ok, FontFile3=R_(70)),
+              dict(ok, FontFile=R_(999)),                       # a reference to an undefined id still counts
+              dict(ok, FontFile=I_(1)), dict(ok, FontFile2=('dict', {})), dict(ok, FontFile3=('null',)),
+              dict(ok, FontFile=I_(1), FontFile3=R_(70)),
+              {b'Flags': I_(4), b'FontFile': R_(70)},          # no /FontName
+              {b'FontName': N_('X'), b'FontFile2': R_(70)},    # no /Flags
+              {b'FontName': N_('X'), b'Flags': I_(-1)},
+              {b'FontName': ('str', b'X'), b'Flags': I_(4)},
+              'notdict']
+    for st, bf in fonts:
+        for dv in descrs:
+            for hops in (0, 1, 2, 'undef'):
+                if dv is None and hops != 0:
+                    continue
+                doc = Doc()
+                cat, root, pg, cs = (doc.fresh() for _ in range(4))
+                doc.put(('stream', {b'Length': I_(1)}, b'x'), 70)
+                doc.next = 71
+                fd = {b'Type': N_('Font'), b'Subtype': ('name', st), b'BaseFont': ('name', bf)}
+                if dv is not None:
+                    dobj = I_(3) if dv == 'notdict' else ('dict', {(k if isinstance(k, bytes) else k.encode()): v for k, v in dv.items()})
+                    fd[b'FontDescriptor'] = R_(998) if hops == 'undef' else doc.via(dobj, hops)
+                fobj = ('dict', fd)
+                fref = R_(doc.put(fobj)) if rng.random() < 0.7 else fobj
+                doc.objs[(cat, 0)] = D_(Type=N_('Catalog'), Pages=R_(root))
+                doc.objs[(root, 0)] = ('dict', {b'Type': N_('Pages'), b'Count': I_(1), b'Kids': A_(R_(pg)),
+                                                b'Resources': ('dict', {b'Font': ('dict', {b'F1': fref})})})
+                doc.objs[(cs, 0)] = ('stream', {b'Length': I_(1)}, b'y')
+                doc.objs[(pg, 0)] = ('dict', {b'Type': N_('Page'), b'Parent': R_(root), b'Contents': R_(cs)})
+                out.append(doc.line(1))
+    return out
+
+
 def cases(tier, rng):
     return (tree_cases(tier, rng) + graph_cases(tier, rng) + diamond_cases(tier, rng) + loop_cases(tier, rng)
-            + encoding_cases(tier, rng) + malformed_cases(tier, rng))
+            + encoding_cases(tier, rng) + embed_cases(tier, rng) + malformed_cases(tier, rng))
 
 
 LEVEL_TEXT = ('Coq theorems about the model of to_page_dom (all object contexts, all roots): construction terminates within '
@@ -989,7 +1045,7 @@ LEVEL_TEXT = ('Coq theorems about the model of to_page_dom (all object contexts,
               'trees, shared/cyclic kids, looping chains in every position, malformed documents) in debug and release builds, '
               'every case in a child process with a watchdog')
 LEVEL_NOTE = ('trusted: Coq kernel, hand transcription coq/Model/Dom.v (validated by the correspondence run), extraction + '
-              'ocaml/drv.ml, harness/src/bin/c11.rs; font dictionaries are compared by resource name and base font; '
+              'ocaml/drv.ml, harness/src/bin/c11.rs; font dictionaries are compared by resource name, base font and is_embedded(); '
               'locations are not modelled')
 TECHNIQUE = ('Coq proof: work-queue invariant (examined = recorded + queued, closed under kids) for exactly-once and '
              'reachability, scope invariant along the discovery path for inheritance, visited-set measure for termination; '
